@@ -16,7 +16,7 @@ def fail(msg):
 
 
 def drive(check_one):
-    inp = json.loads(sys.argv[1])
+    inp = json.loads(sys.stdin.read() if (len(sys.argv) < 2 or sys.argv[1] == '-') else sys.argv[1])
     inputs = inp['search'] if isinstance(inp, dict) and 'search' in inp else [inp]
     tried = 0
     for x in inputs:
